@@ -3,7 +3,7 @@
    /repo's AreaDefinition.__getitem__ on every run (Gen/GenC10.v). *)
 From Coq Require Import Reals ZArith List Lia Lra Bool.
 From PR Require Import Base.Num Base.RNum Base.Slice Model.Grid Model.SliceArea Model.Stack Gen.GenC10
-     Proofs.C10_list Proofs.C10_slice Proofs.C10_stack Proofs.C10_main.
+     Model.LonlatPaths Base.ZX Proofs.C10_list Proofs.C10_slice Proofs.C10_stack Proofs.C10_paths Proofs.C10_main.
 Import ListNotations.
 Open Scope Z_scope.
 
@@ -80,8 +80,8 @@ Proof. cbn. lia. Qed.
 
 (* split at any row 1..h-1 and concatenate the two parts: the original extent and shape *)
 Theorem C10_split_concat_id : forall g k, wf_g g -> 1 <= k <= gheight g - 1 ->
-  exists m, concatenate_area_defs RO (gen_area_getitem RO g (rows_key 0 k))
-                                     (gen_area_getitem RO g (rows_key k (gheight g))) = Some m /\
+  exists m, gen_concatenate_area_defs RO (gen_area_getitem RO g (rows_key 0 k))
+                                         (gen_area_getitem RO g (rows_key k (gheight g))) 0 = Some m /\
             g_area m = g_area g /\ g_crs m = g_crs g.
 Proof. exact main_split_concat_id. Qed.
 Print Assumptions C10_split_concat_id.
@@ -91,8 +91,8 @@ Print Assumptions C10_split_concat_id.
 Theorem C10_split_concat_id_rev_if : forall g k, wf_g g -> 1 <= k <= gheight g - 1 ->
   isclose RO (ymin (g_area (gen_area_getitem RO g (rows_key k (gheight g)))))
              (ymax (g_area (gen_area_getitem RO g (rows_key 0 k)))) = false ->
-  exists m, concatenate_area_defs RO (gen_area_getitem RO g (rows_key k (gheight g)))
-                                     (gen_area_getitem RO g (rows_key 0 k)) = Some m /\
+  exists m, gen_concatenate_area_defs RO (gen_area_getitem RO g (rows_key k (gheight g)))
+                                         (gen_area_getitem RO g (rows_key 0 k)) 0 = Some m /\
             g_area m = g_area g /\ g_crs m = g_crs g.
 Proof. exact main_split_concat_id_rev_if. Qed.
 Print Assumptions C10_split_concat_id_rev_if.
@@ -165,3 +165,60 @@ Example C10_swath_ex :
   swath_getitem (mk_oslice (Some (-2)) None, mk_oslice None (Some 1)) ([[1; 2]; [3; 4]; [5; 6]], [[7; 8]; [9; 10]; [11; 12]])
   = ([[3]; [5]], [[9]; [11]]).
 Proof. reflexivity. Qed.
+
+(* ================= wave 2: more of the code under the translator, other code paths, histories ================= *)
+
+(* combine_area_extents_vertical, concatenate_area_defs (axis=0), the local_row_slice expression and the offset
+   update of StackedAreaDefinition.get_lonlats are regenerated from /repo on every run and equal the hand models used
+   above, for EVERY arithmetic instance (reals and binary64 alike) *)
+Theorem C10_kernels_translation : forall (T : Type) (OP : ops T),
+  (forall a1 a2 : garea T, gen_combine_area_extents_vertical OP a1 a2 = combine_area_extents_vertical OP (g_area a1) (g_area a2)) /\
+  (forall g1 g2 : garea T, gen_concatenate_area_defs OP g1 g2 0 = concatenate_area_defs OP g1 g2) /\
+  (forall rs off (d : garea T), okey (gen_local_row_slice rs off d) = local_row_slice rs off (gheight d)) /\
+  (forall off (d : garea T), gen_stack_offset_step off d = off + gheight d).
+Proof. exact main_kernels_translation. Qed.
+Print Assumptions C10_kernels_translation.
+
+(* dask path (chunks=...): for EVERY chunking of rows and columns into blocks of sizes >= 0 that sum to the shape
+   (block offsets = C19's prefix-sum [offsets]) the coordinate array assembled from the per-block
+   _generate_1d_proj_vectors / meshgrid / pointwise inverse projection is the array of the unchunked path --
+   in every arithmetic instance, hence bit for bit -- and so is every data_slice of it *)
+Theorem C10_dask_chunks_independent : forall (T C : Type) (OP : ops T) (f : T -> T -> C) (a : area T) cy cx,
+  Forall (fun x => 0 <= x) cy -> Forall (fun x => 0 <= x) cx -> sumZ cy = height a -> sumZ cx = width a ->
+  dask_grid OP f a cy cx = grid_of f (proj_vector_x OP a) (proj_vector_y OP a) /\
+  forall key, np_slice2 key (dask_grid OP f a cy cx) =
+              grid_of f (np_slice (snd key) (proj_vector_x OP a)) (np_slice (fst key) (proj_vector_y OP a)).
+Proof. exact main_dask_chunks_independent. Qed.
+Print Assumptions C10_dask_chunks_independent.
+Example C10_dask_ex : Forall (fun x => 0 <= x) [2; 0; 1] /\ Forall (fun x => 0 <= x) [3; 1] /\
+  sumZ [2; 0; 1] = height (g_area ex_area) /\ sumZ [3; 1] = width (g_area ex_area).
+Proof. repeat split; repeat constructor; lia. Qed.
+
+(* cache=: for EVERY history of get_lonlats(data_slice, cache) calls on one AreaDefinition (memo initially unset),
+   every call returns lonlats()[data_slice] exactly as a fresh object would *)
+Theorem C10_area_cache_history : forall (T C : Type) (OP : ops T) (inv : T -> T -> C) (g : garea T)
+    (calls : list (option (oslice * oslice) * bool)),
+  area_history OP inv g None calls = map (fun o => apply_ds (fst o) (area_lonlats OP inv g None)) calls.
+Proof. exact main_area_cache_history. Qed.
+Print Assumptions C10_area_cache_history.
+
+(* the same for a StackedAreaDefinition whose members are shared objects with their own memos: for EVERY history of
+   stack.get_lonlats(...) calls interleaved with direct member.get_lonlats(...) calls, starting from any state in which
+   each member's memo is unset or holds that member's full arrays, every operation returns what it returns on fresh
+   objects; and after a stack call the stack's own lons/lats attribute holds that call's result *)
+Theorem C10_stack_cache_history : forall (T C : Type) (OP : ops T) (inv : T -> T -> C) (defs : list (garea T)) st os,
+  state_ok OP inv defs st ->
+  fst (shistory OP inv defs st os) = map (sop_spec OP inv defs) os /\
+  forall ds flag, st_last (fst (sstep OP inv defs (snd (shistory OP inv defs st os)) (StackCall ds flag)))
+                  = Some (stacked_lonlats OP inv ds defs).
+Proof. exact main_stack_cache_history. Qed.
+Print Assumptions C10_stack_cache_history.
+Example C10_stack_state_ex : state_ok RO (fun x y => (x, y)) [ex_area; ex_area] (mk_sstate [None; None] None).
+Proof. repeat constructor. Qed.
+
+(* CoordinateDefinition.append (in place): after any sequence of appends the arrays are the row-wise concatenation,
+   in order *)
+Theorem C10_swath_append_history : forall (A : Type) (s : swath A) (ts : list (swath A)),
+  swath_append_all s ts = (fst s ++ concat (map fst ts), snd s ++ concat (map snd ts)).
+Proof. exact main_swath_append_history. Qed.
+Print Assumptions C10_swath_append_history.
